@@ -181,11 +181,15 @@ case = {
                           {"k": "Wrap.List.LeavesV.Str", "v": "deep_str"}, {"k": "Sink.EmbNum", "v": "emb_num_o"}],
         "validators": [{"k": "Sink.SString", "v": ["verifharness/tfx.UseMockValidator()"]},
                        {"k": "Wrap.S.InnerV.LeafListV.Num", "v": ["verifharness/tfx.UseMockValidator()", "verifharness/tfx.UseOtherValidator()"]},
-                       {"k": "Sink.CustomB", "v": ["verifharness/tfx.UseMockValidator()"]}],
+                       {"k": "Sink.CustomB", "v": ["verifharness/tfx.UseMockValidator()"]},
+                       # both key forms for one field with different lists: the full path is the more specific entry
+                       {"k": "Leaf.Str", "v": ["verifharness/tfx.UseMockValidator()"]},
+                       {"k": "Wrap.S.Inners.LeafList.Str", "v": ["verifharness/tfx.UseOtherValidator()", "verifharness/tfx.UseMockValidator()"]}],
         "planModifiers": [{"k": "Sink.SInt64", "v": ["github.com/hashicorp/terraform-plugin-framework/tfsdk.RequiresReplace()"]},
                           {"k": "Inner.Name", "v": ["github.com/hashicorp/terraform-plugin-framework/tfsdk.RequiresReplace()",
                                                      "github.com/hashicorp/terraform-plugin-framework/tfsdk.UseStateForUnknown()"]},
-                          {"k": "Sink.CustomA", "v": ["github.com/hashicorp/terraform-plugin-framework/tfsdk.RequiresReplace()"]}],
+                          {"k": "Sink.CustomA", "v": ["github.com/hashicorp/terraform-plugin-framework/tfsdk.RequiresReplace()"]},
+                          {"k": "Sink.InnerP.Name", "v": ["github.com/hashicorp/terraform-plugin-framework/tfsdk.UseStateForUnknown()"]}],
         "customTypes": [{"k": "Sink.CfgCustom", "v": "CfgCustomC"}],
         "suffixes": [{"k": "CfgCustomC", "v": "SfxCfgCustomC"}, {"k": "StrCustomB", "v": "SfxStrCustomB"}],
         "injectedFields": [{"k": "Sink", "v": [{"name": "injected_id", "type": "github.com/hashicorp/terraform-plugin-framework/types.StringType",
